@@ -466,6 +466,11 @@ func evalImportStmt(vm *r.VM, node *syntax.ImportStmt) error {
 
 		// duplicate export values into module
 		for k, v := range library.GetAllExportValues() {
+			// a library's classes are shared by every execution of the process: hand out
+			// a view whose constructor belongs to this execution
+			if cmodel, ok := v.(*value.ClassModel); ok {
+				v = cmodel.Derive()
+			}
 			extModule.AddExportValue(k, v)
 		}
 		vm.PopCallFrame()
